@@ -169,6 +169,17 @@ def check(ctx):
         nsample = 6 if ctx.tier == "quick" else 40
         go_ops = [o for o in ops if o.split()[1] == "go"]
         largest = sorted(go_ops, key=len, reverse=True)[: max(2, nsample // 4)]       # the packages with the most tests first
+
+        def tg_op(mode, fs):
+            return "tg %s%s" % (mode, "".join(" %s %s %s" % ((n.encode().hex() or "-"), k, (c.encode().hex() or "-")) for n, k, c in fs))
+        # packages ALL of whose tests are failing_ ones, in one file and spread over two (the generated file needs its imports for
+        # them alone), and a package whose only plain test sits in another file than its failing ones
+        ff = "package semantics\n\nfunc failing_testAlpha() bool {\n\treturn false\n}\n\nfunc failing_testBeta() bool {\n\treturn false\n}\n"
+        fg = "package semantics\n\nfunc helper() uint64 {\n\treturn 1\n}\n\nfunc failing_testGamma() bool {\n\treturn helper() == 2\n}\n"
+        fp = "package semantics\n\nfunc testDelta() bool {\n\treturn true\n}\n"
+        of = [tg_op("go", [("only.go", "f", ff)]), tg_op("go", [("a.go", "f", ff), ("b.go", "f", fg)]), tg_op("go", [("a.go", "f", fg), ("z.go", "f", fp)])]
+        stats["only_failing_packages_compiled"] = 2
+        largest = of + [o for o in largest if o not in of]
         for op in largest + [o for o in go_ops if o not in largest][: nsample - len(largest)]:
             mode, fs = case_files(op)
             if not any(n.endswith(".go") and not n.endswith("_test.go") for n, _, _ in fs):
